@@ -85,8 +85,30 @@ fn sig_matches(pattern: &str, sig: &str) -> bool {
     }
 }
 
+/// The scenario list of a tier. In the thorough tier every job scenario with bound b >= 2 is
+/// first explored with bound b-1 (cheap, completes everywhere) and only then with bound b, so
+/// that a wall-clock cap cuts the deepest level, not whole scenarios.
+pub fn scenario_list(spec: &PropSpec, tier: Tier) -> Vec<Scenario> {
+    let base = (spec.build)(tier);
+    if tier != Tier::Thorough {
+        return base;
+    }
+    let mut first = vec![];
+    for s in &base {
+        if s.bound >= 2 && !s.unbounded && !s.loop_body {
+            let mut c = s.clone();
+            c.bound = s.bound - 1;
+            c.name = format!("{}#d{}", s.name, c.bound);
+            c.shards = 1;
+            first.push(c);
+        }
+    }
+    first.extend(base);
+    first
+}
+
 pub fn worker(spec: &PropSpec, tier: Tier) {
-    let scenarios = (spec.build)(tier);
+    let scenarios = scenario_list(spec, tier);
     let stdin = std::io::stdin();
     let mut out = std::io::stdout();
     for line in stdin.lock().lines() {
@@ -112,7 +134,7 @@ pub fn worker(spec: &PropSpec, tier: Tier) {
 
 pub fn check(spec: &PropSpec, tier: Tier, seed: i64) -> i32 {
     let t0 = Instant::now();
-    let scenarios = (spec.build)(tier);
+    let scenarios = scenario_list(spec, tier);
     if scenarios.is_empty() {
         eprintln!("no scenarios for {}", spec.id);
         return 2;
@@ -133,7 +155,7 @@ pub fn check(spec: &PropSpec, tier: Tier, seed: i64) -> i32 {
             items.push_back((i, sh, s.shards.max(1)));
         }
     }
-    if !items.is_empty() {
+    if !items.is_empty() && tier == Tier::Quick {
         let r = (seed.unsigned_abs() as usize) % items.len();
         items.rotate_left(r);
     }
@@ -409,7 +431,7 @@ pub fn replay(specs: &[PropSpec], path: &str) -> i32 {
         eprintln!("unknown property {prop}");
         return 2;
     };
-    let scenarios = (spec.build)(tier);
+    let scenarios = scenario_list(spec, tier);
     let name = doc["scenario"].as_str().unwrap_or("");
     let Some(s) = scenarios.iter().find(|s| s.name == name) else {
         eprintln!("scenario {name} not found in {prop}/{}", tier.name());
